@@ -95,3 +95,16 @@ def _c12_lift(v):
     m = v["mech"]
     return v["oracle"] == "approved-edit-failed" and m.get("helper") == "lift_target" and m.get("exc") == "TransformError" \
         and m.get("levels", 0) >= 2 and m.get("remainder_invalid") is True
+
+
+@predicate("C17-reparenting-validity")
+def _c17_reparent(v):
+    m = v["mech"]
+    return v["oracle"] == "order-fails" and m.get("both_fail") is True and m.get("ancestor_token_removed") is True and m.get("validity_error") is True
+
+
+@predicate("C17-reparenting-mark-step-one-order")
+def _c17_reparent_mark(v):
+    m = v["mech"]
+    return v["oracle"] == "order-fails" and m.get("both_fail") is False and m.get("ancestor_token_removed") is True \
+        and m.get("validity_error") is True and "AddMarkStep" in (m.get("A"), m.get("B"))
